@@ -397,6 +397,7 @@ func Zoo() *SchemaDesc {
 	objField(sd, "Node", "things", nil, ListOf(Uni("Thing")), nid, NodeThings)
 	objField(sd, "Node", "solo", nil, Uni("Solo"), nid, NodeSolo)
 	objField(sd, "Node", "blob", nil, Scalar("String"), nid, NodeBlob)
+	objField(sd, "Node", "rings", nil, ListOf(ListOf(Obj("Leaf"))), nid, NodeRings)
 	objField(sd, "Node", "item", nil, Obj("Item"), nid, NodeItem)
 	objField(sd, "Node", "bags", nil, ListOf(Obj("Bag")), nid, NodeBags)
 	sd.Types["Node"].KeyField = "id"
